@@ -446,8 +446,13 @@ def _roots_sequences(f, g, fromdir):
     for c in g.calls(lambda e: e['k'] == 'mcall' and SX.short(e['callee']) in ('push_back', 'emplace_back') and SX.is_node(e.get('obj')) and e['obj'].get('id') == bid):
         a = SX.real_args(c.e)[0]
         t = SX.show(a)
-        if any(x['k'] == 'ref' and x.get('id') == fromdir for x in SX.walk(a)):
-            kind = 'from'
+        a0 = SX.strip(a)
+        while SX.is_node(a0) and a0.get('k') in ('cast', 'construct') and (a0['k'] == 'cast' or len(SX.real_args(a0)) == 1):
+            a0 = SX.strip(a0['e'] if a0['k'] == 'cast' else SX.real_args(a0)[0])
+        if SX.is_node(a0) and a0.get('k') == 'ref' and a0.get('id') == fromdir:
+            kind = 'from'       # the importing directory itself (possibly converted to a path)
+        elif any(x['k'] == 'ref' and x.get('id') == fromdir for x in SX.walk(a)):
+            kind = 'other'      # an expression that merely mentions it (`paths.empty() ? fromDir : paths.front()`) is not that root
         elif 'current_path' in t:
             kind = 'cwd'
         else:
